@@ -211,7 +211,9 @@ def check_case(fn, recipe, script, focus, handlers, delivery, rec=None):
         res = out["result"]
         started = any(t[0] == "enter" for t in H.trace)
         if has_override and started:
-            ok = res[0] == "exc" and res[1] == "OverrideException" and not out["log"]
+            # (a default value expression E('dflt', ..) is logged when the def statement runs)
+            ran = [e for e in out["log"] if not (e[0] == "E" and e[1] == "dflt")]
+            ok = res[0] == "exc" and res[1] == "OverrideException" and not ran
             if not ok:
                 raise PropertyViolation(
                     "closure", f"overriding closure variable cl: expected OverrideException before anything ran, got "
